@@ -391,8 +391,23 @@ def run_history(ctx, items, plan, mode, case):
             akcolor.set_global_colors_config(conf)
             made_global = True
         verify(conf, "init", palettes)
+        twin = None
         for bi, (kind, batch, conflicts) in enumerate(plan["batches"]):
             new = {i: items[i]['descr'] for i in batch}
+            if plan.get("shallow_copy_before_batch") == bi and mode == "local":
+                # somebody takes a copy of the configuration (copy.copy) while descriptions are still missing
+                import copy
+                try:
+                    twin = copy.copy(conf)
+                except Exception as err:
+                    fail("registration-raises", {"type": type(err).__name__, "msg": str(err)[:200], "on": "copy.copy"})
+            if plan.get("reports_read") and (bi + len(batch)) % 2 == 0:
+                # somebody reads the report of the configuration (the documented way to look at it)
+                try:
+                    str(conf.make_report())
+                    ctx.count("reports_read_between_registrations")
+                except Exception:
+                    ctx.count("report_raises(observed, not judged)")
             for i in ([] if kind == "palette-synced" else conflicts):
                 if i in registered and i not in new:
                     new[i] = "MAGENTA/CYAN:blink"
@@ -448,6 +463,22 @@ def run_history(ctx, items, plan, mode, case):
                 fail("registration-raises", {"type": type(err).__name__, "msg": str(err)[:200], "batch": new})
             registered |= set(batch)
             verify(conf, "batch%d" % bi, palettes)
+        if twin is not None and hasattr(twin, "syntax_map"):
+            # whatever the copy shares with the original: what it shows for an id follows from the descriptions IT has
+            known = {sid for sid in items if sid in twin.syntax_map}
+            ctx.count("copies_taken_while_descriptions_were_missing")
+            for sid in sorted(known):
+                exp = resolve(items, sid, known)
+                want = sgr.DEFAULT if exp == 'UNRES' else (exp[0], exp[1], frozenset(e for e, v in exp[2].items() if v))
+                try:
+                    got = shown_state(twin.get_color(sid))
+                except sgr.SgrError as err:
+                    fail("malformed-formatter-output", {"id": sid, "err": str(err)})
+                ctx.count("formatter_checks")
+                if got != want:
+                    fail("unresolvable-id-is-coloured" if exp == 'UNRES' else "formatter-differs-from-resolved-description",
+                         {"id": sid, "descr": items[sid]['descr'], "via": "a copy.copy of the configuration",
+                          "ids_the_copy_has": len(known), "ids_the_original_has": len(registered)})
         if mode == "global" and plan.get("copy_probe"):
             # somebody works on a deep copy of the global configuration (tries out more colours): the copy is a
             # configuration of its own, the global one and its palettes are not concerned
@@ -540,6 +571,7 @@ def make_plan(rng, items, mode):
     return {"init": init, "batches": batches, "early_palette": rng.random() < 0.5, "swap": swap,
             "plain_global_palette": rng.random() < 0.3, "stable_no_color": rng.random() < 0.7,
             "same_class_names": rng.random() < 0.5, "copy_probe": rng.random() < 0.4,
+            "reports_read": rng.random() < 0.5, "shallow_copy_before_batch": rng.choice([None, None, 0, 1, 2]),
             "via_app_configure": rng.choice([None, None, "dict"])}       # (a LIST of amendment dictionaries, which the
             # helper's doc string also offers, is refused by the unchanged code with a TypeError: outside C14, see DESIGN)
 
